@@ -31,7 +31,7 @@ type decCase struct {
 	Ops    []int    `json:"ops,omitempty"` // phy entries: a history of method calls applied to ONE decoded frame
 }
 
-const watchdog = 10 * time.Second
+const watchdog = 30 * time.Second
 
 // guarded runs f on a private copy of the input, with a watchdog, and checks that the copy was not written to.
 // It returns (reached, violation): reached says whether a payload decoder was reached (f's own verdict).
@@ -608,7 +608,7 @@ func TestProp(t *testing.T) {
 	defer r.Finish()
 
 	evid.RunManual(r, t, "hostile-corpus", "exhaustive",
-		"hand-written hostile constants (FOptsLen 15 with nothing / 7 bytes left, truncated rejoin and join-accept, McGroupStatusAns mask 0x0F without items, DevUpgradeImageAns status 3 without version, DataFragment without index, CFList of 0xFF, ...) through their entry point: no panic, no hang (10 s watchdog), input buffer and its spare capacity untouched.",
+		"hand-written hostile constants (FOptsLen 15 with nothing / 7 bytes left, truncated rejoin and join-accept, McGroupStatusAns mask 0x0F without items, DevUpgradeImageAns status 3 without version, DataFragment without index, CFList of 0xFF, ...) through their entry point: no panic, no hang (30 s watchdog), input buffer and its spare capacity untouched.",
 		true, checkDec, func(m *evid.Manual[decCase]) {
 			if r.Shard != 0 {
 				return
